@@ -26,7 +26,7 @@ POOL_Q = [
     (N(0), 'n:0'), (N(1), 'n'), (N(-1), 'n:neg'), (N(2), 'n'), (N(0.5), 'n:frac'), (N(-2.5), 'n:negfrac'),
     (N(0.1), 'n:frac'), (N(3), 'n'), (N(1e200), 'n:huge'), (N(1e-200), 'n:tiny'), (N(-1e200), 'n:huge'),
     (T('3'), 't:num'), (T(' 3 '), 't:pad'), (T('-2.5'), 't:num'), (T('abc'), 't:alpha'), (T('ABC'), 't:alpha'),
-    (T(''), 't:empty'), (T('1E+2'), 't:num'),
+    (T(''), 't:empty'), (T('1E+2'), 't:num'), (T('1e3'), 't:num'), (T('7.'), 't:num'), (T(' 2.5E2 '), 't:pad'), (T('.5'), 't:num'),
     # text that Python's float() reads but Excel does not, and an exponent that overflows a double
     (T('inf'), 't:pyfloat'), (T('nan'), 't:pyfloat'), (T('1_0'), 't:pyfloat'), (T('-Infinity'), 't:pyfloat'), (T('1E+999'), 't:overflow'),
     (B(True), 'b'), (B(False), 'b'), (BLANK, 'blank'),
